@@ -1,6 +1,7 @@
 package main
 
 import (
+	"fmt"
 	"go/types"
 
 	"golang.org/x/tools/go/ssa"
@@ -155,7 +156,7 @@ func (r *Run) mapUpdate(st *State, fr *Frame, x *ssa.MapUpdate) {
 	m := e.asTerm(r.val(st, fr, x.Map), SRef)
 	k := e.asTerm(r.val(st, fr, x.Key), ml.ksort)
 	v := r.val(st, fr, x.Value)
-	r.mapAccessCheck(st, fr, m, true, x)
+	r.mapKeyAccessCheck(st, fr, m, k, x)
 	e.safety(st, fr, x, "nilmap", Not(Eq(m, NilOf(SRef))), "assignment to entry in non-nil map at "+e.posOf(x))
 	r.noteEscape(st, v)
 	e.mapInsert(st, ml, m, k, v)
@@ -176,12 +177,34 @@ func (e *Engine) mapDelete(st *State, ml mapLayout, m, k T) {
 	e.regionWrite1(st, ml.key+".len", SInt, m, Ite(had, App(SInt, "-", oldLen, IntLit(1)), oldLen))
 }
 
-// map iteration: Range creates an iterator token; each Next yields an arbitrary present key
-// (visited-set bookkeeping is left to loop invariants with ghost witnesses).
+// Map iteration. `for k, v := range m` visits every key exactly once in an arbitrary order: a Range
+// introduces a ghost bijection rkey : [0,len(m)) -> dom(m), ridx = rkey^-1, and a hidden counter cell
+// mapiterN (N = ordinal of the range statement in its function); the i-th Next yields rkey(i).
 type MapIter struct {
-	M  T
-	ML mapLayout
+	M     T
+	ML    mapLayout
 	IsMap bool
+	RKey  string
+	RIdx  string
+	Cell  *Cell
+	N     int
+}
+
+func rangeOrdinal(fn *ssa.Function, x *ssa.Range) int {
+	n := 0
+	for _, b := range fn.Blocks {
+		for _, in := range b.Instrs {
+			if r, ok := in.(*ssa.Range); ok {
+				if _, isMap := r.X.Type().Underlying().(*types.Map); isMap {
+					if r == x {
+						return n
+					}
+					n++
+				}
+			}
+		}
+	}
+	return n
 }
 
 func (r *Run) rangeOp(st *State, fr *Frame, x *ssa.Range) Val {
@@ -191,23 +214,45 @@ func (r *Run) rangeOp(st *State, fr *Frame, x *ssa.Range) Val {
 	}
 	m := e.asTerm(r.val(st, fr, x.X), SRef)
 	r.mapAccessCheck(st, fr, m, false, x)
-	return &MapIter{M: m, ML: e.mapLayout(x.X.Type()), IsMap: true}
+	ml := e.mapLayout(x.X.Type())
+	it := &MapIter{M: m, ML: ml, IsMap: true, N: rangeOrdinal(fr.Fn, x)}
+	it.RKey = e.freshFun("rkey", []Sort{SInt}, ml.ksort)
+	it.RIdx = e.freshFun("ridx", []Sort{ml.ksort}, SInt)
+	ln := Ite(Eq(m, NilOf(SRef)), IntLit(0), e.mapLen(st, ml, m))
+	i := T{"i!q", SInt}
+	k := T{"k!q", ml.ksort}
+	rk := App(ml.ksort, it.RKey, i)
+	st.assume(Forall([]T{i}, []T{rk}, Implies(And(App(SBool, "<=", IntLit(0), i), App(SBool, "<", i, ln)),
+		And(e.mapHas(st, ml, m, rk), Eq(App(SInt, it.RIdx, rk), i)))))
+	ri := App(SInt, it.RIdx, k)
+	st.assume(Forall([]T{k}, []T{ri}, Implies(And(Not(Eq(m, NilOf(SRef))), e.mapHas(st, ml, m, k)),
+		And(App(SBool, "<=", IntLit(0), ri), App(SBool, "<", ri, ln), Eq(App(ml.ksort, it.RKey, ri), k)))))
+	st.assume(App(SBool, ">=", ln, IntLit(0)))
+	name := fmt.Sprintf("mapiter%d", it.N)
+	c := &Cell{ID: e.nextCell(), Name: name, Typ: types.Typ[types.Int]}
+	st.Cells[c] = IntLit(0)
+	fr.Cells[name] = c
+	it.Cell = c
+	st.Ghost[fmt.Sprintf("mapiter:%s:%d", e.fnName[fr.Fn], it.N)] = it
+	return it
 }
 
 func (r *Run) next(st *State, fr *Frame, x *ssa.Next) Val {
 	e := r.e
 	it, _ := r.val(st, fr, x.Iter).(*MapIter)
 	tup := x.Type().(*types.Tuple)
-	ok := e.freshConst("next_ok", SBool)
 	if it == nil || !it.IsMap {
+		ok := e.freshConst("next_ok", SBool)
 		return &TupleV{V: []Val{ok, e.freshVal(st, tup.At(1).Type(), "next_k"), e.freshVal(st, tup.At(2).Type(), "next_v")}}
 	}
-	k := e.freshConst("next_k", it.ML.ksort)
 	r.mapAccessCheck(st, fr, it.M, false, x)
-	st.assume(Implies(ok, And(Not(Eq(it.M, NilOf(SRef))), e.mapHas(st, it.ML, it.M, k))))
-	// an empty or nil map yields nothing
-	st.assume(Implies(Or(Eq(it.M, NilOf(SRef)), Eq(e.mapLen(st, it.ML, it.M), IntLit(0))), Not(ok)))
+	i := st.Cells[it.Cell].(T)
+	ln := Ite(Eq(it.M, NilOf(SRef)), IntLit(0), e.mapLen(st, it.ML, it.M))
+	ok := And(App(SBool, "<=", IntLit(0), i), App(SBool, "<", i, ln))
+	k := App(it.ML.ksort, it.RKey, i)
 	v := e.mapVal(st, it.ML, it.M, k)
-	st.Facts["lastnext.k"] = k.S
-	return &TupleV{V: []Val{ok, k, v}}
+	st.Cells[it.Cell] = App(SInt, "+", i, IntLit(1))
+	return &TupleV{V: []Val{ok, r.keyVal(k, tup.At(1).Type()), v}}
 }
+
+func (r *Run) keyVal(k T, t types.Type) Val { return k }
